@@ -118,7 +118,7 @@ def corpus():
 
 def generate(rng, tier):
     n = 1500 if tier == 'quick' else 12000
-    return [Gen(rng).case() for _ in range(n)]
+    return [{'kind': 'lazy', 'i': i} for i in range(len(lazy_scenarios()))] + [Gen(rng).case() for _ in range(n)]
 
 
 def build_spec(opd):
@@ -172,7 +172,78 @@ def containers(o, acc):
     return acc
 
 
+def lazy_scenarios():
+    """Flatten(init='lazy') IS itertools.chain.from_iterable of the target: nothing is taken from the target before the result is
+    consumed, and each inner iterable is taken when its turn comes (one-shot sources whose items are only valid until the source
+    is advanced: groupby groups, a reader re-using one row buffer)"""
+    import glom
+
+    def counted(log):
+        for i in range(3):
+            log.append(i)
+            yield [i, i + 10]
+
+    def groups():
+        return (g for _, g in itertools.groupby(['a1', 'a2', 'b1', 'c1', 'c2'], key=lambda s: s[0]))
+
+    def rows():
+        buf = [0, 0]
+        for i in range(3):
+            buf[0], buf[1] = i, i * 10
+            yield buf
+
+    def boxed_rows():
+        buf = [0, 0]
+        for i in range(3):
+            buf[0], buf[1] = i, i * 10
+            yield [buf]
+    lazy = lambda: glom.Flatten(init='lazy')  # noqa: E731
+    return [
+        ('nothing consumed up front', 'pulls', counted, lazy),
+        ('counted source', 'value', lambda: counted([]), lazy),
+        ('groupby groups', 'value', groups, lazy),
+        ('re-used row buffer', 'value', rows, lazy),
+        ('re-used row buffer, inside a chain', 'value', rows, lambda: (glom.T, glom.Flatten(init='lazy'))),
+        ('flatten(levels=2) over boxed re-used rows', 'levels2', boxed_rows, None),
+    ]
+
+
+def run_lazy(case):
+    import glom
+    name, what, src, mk = lazy_scenarios()[case['i']]
+    try:
+        if what == 'pulls':
+            log = []
+            res = glom.glom(src(log), mk())
+            before = list(log)
+            got = list(res)
+            log2 = []
+            want = list(itertools.chain.from_iterable(src(log2)))
+            problems = []
+            if before:
+                problems.append('lazy %s: %d items were taken from the source before the result was consumed' % (name, len(before)))
+            if got != want:
+                problems.append('lazy %s: %r, itertools.chain.from_iterable gives %r' % (name, got, want))
+            return {'problems': problems}
+        if what == 'levels2':
+            got = glom.flatten(src(), levels=2)
+            want = list(itertools.chain.from_iterable(itertools.chain.from_iterable(src())))
+        else:
+            got = list(glom.glom(src(), mk()))
+            want = list(itertools.chain.from_iterable(src()))
+    except Exception as e:
+        return {'problems': ['lazy %s: raised %s' % (name, type(e).__name__)]}
+    if got != want:
+        return {'problems': ['lazy %s: %r, the itertools composition gives %r' % (name, got, want)]}
+    return {'problems': []}
+
+
+_TRIV = None
+
+
 def run_impl(case):
+    if case.get('kind') == 'lazy':
+        return run_lazy(case)
     r = Realiser()
     spec = build_spec(case['op'])
     snap = repr(case['target'])
@@ -234,6 +305,13 @@ def reference(case, r):
 
 
 def coq_case(case, out):
+    global _TRIV
+    if case.get('kind') == 'lazy':
+        # decided on the implementation side; the Coq side gets a small ordinary case with its real outcome
+        if _TRIV is None:
+            t = corpus()[3]
+            _TRIV = (t, run_impl(t))
+        return coq_case(*_TRIV)
     opd = case['op']
     k = opd[0]
     if k == 'fold':
@@ -261,10 +339,14 @@ def coq_case(case, out):
 
 
 def model_dump_term(case):
+    if case.get('kind') == 'lazy':
+        return '0'
     return 'r_model %s' % coq_case(case, {'ok': None})
 
 
 def direct_oracle(case, out):
+    if case.get('kind') == 'lazy':
+        return '; '.join(out['problems']) if out.get('problems') else None
     if out.get('input_untouched') is False:
         return 'an input element was mutated'
     selects = case['op'][0] == 'fold' and case['op'][2] == 'last'      # an op that returns an input element: the result IS that element
@@ -278,6 +360,8 @@ def direct_oracle(case, out):
 
 
 def nontrivial(case, out):
+    if case.get('kind') == 'lazy':
+        return True
     t = case['target']
     if not isinstance(t, dict):
         return True
@@ -286,6 +370,8 @@ def nontrivial(case, out):
 
 
 def classify(case, out):
+    if case.get('kind') == 'lazy':
+        return 'lazy:%d' % case['i']
     return '%s:%s' % ('/'.join(str(x) for x in case['op']), out.get('raise', 'ok'))
 
 
